@@ -42,7 +42,20 @@ def run(ck, models, tier, ws):
         for name, foreign, local, t in tm.facts.callees_of(b):
             if "atomic::Atomic" in name and name.split("::")[-1] in ("store", "swap", "fetch_add", "fetch_sub", "compare_exchange", "fetch_update"):
                 writers.append((b["path"], name))
+    # helpers all of whose crate-local callers are (transitively) installation entry points are part of the installation
+    callers = {}
+    for b in tm.facts.fn_bodies():
+        for name, foreign, local, t in tm.facts.callees_of(b):
+            if local and tm.facts.body(name) is not None:
+                callers.setdefault(name, set()).add(b["path"])
     allowed = set(roots)
+    changed = True
+    while changed:
+        changed = False
+        for f_, cs in callers.items():
+            if f_ not in allowed and cs and cs <= allowed:
+                allowed.add(f_)
+                changed = True
     bad = [w for w in writers if w[0] not in allowed]
     ck.ob("R7.2", "no-other-writer-in-library", tm.target, not bad, "atomic writes in the library: %s" % [(short(a), short(b)) for a, b in writers])
 
